@@ -62,7 +62,7 @@ STRATEGIES = ["range", "roundrobin", "sticky"]
 
 # non-vacuity: broken variants of the model and the clause family each one has to violate
 BUGS_QUICK = ["fence_keeps_id_without_budget", "final_commit_one_short", "commit_keeps_stale_coordinator", "setup_fail_blocks_release",
-              "hb_stops_before_cleanup", "lookup_loop_ignores_close"]
+              "hb_stops_before_cleanup", "lookup_loop_ignores_close", "leave_skips_lock"]
 BUG_EXPECT = {"claim_fail_no_cancel": "ClaimFailEndsSession", "setup_fail_blocks_release": "SetupFailureReturns",
               "lookup_loop_ignores_close": "SetupFailureReturns"}   # default: NoViolation
 BUG_BASE = {"fence_keeps_id_without_budget": "Group.mc.retry.cfg", "final_commit_one_short": "Group.mc.retry.cfg",
@@ -303,6 +303,17 @@ def shutdown_scenarios():
         out.append(_scen("sd-%s" % kind, [_client("c1", [_sess("drain", 1, 1, (kind, at))])]))
     out.append(_scen("sd-setup_error-two", [_client("c1", [_sess("drain", 1, 1, ("setup_error", "setup")), _sess("drain", 1, 1, ("close", "claim"))]),
                                             _client("c2", [_sess("drain", 1, 1), _sess("drain", 1, 1, ("close", "claim"))])]))
+    # Close lands while a JoinGroup that carries an EMPTY member id is in flight (the very first join; the rejoin after a fence):
+    # the coordinator holds its answer until Close had its chance to run - Close has to wait for Consume and then leave with
+    # the id that answer issues
+    ok1 = _sess("early", 1, 1)
+    out.append(_scen("sd-close-hold-first-join", [_client("c1", [_sess("drain", 1, 1, ("close", "join"))])]))
+    out.append(_scen("sd-close-hold-rejoin-syncfence", [_client("c1", [_sess("drain", 1, 1, ("close", "rejoin"), sf=["unknown"])])]))
+    out.append(_scen("sd-close-hold-rejoin-joinfence", [_client("c1", [ok1, _sess("drain", 1, 1, ("close", "rejoin"), jf=["unknown"])])]))
+    out.append(_scen("sd-close-hold-rejoin-hbfence", [_client("c1", [_sess("drain", 1, 1, ("hb_unknown", "claim")),
+                                                                    _sess("drain", 1, 1, ("close", "rejoin"))])]))
+    out.append(_scen("sd-close-hold-first-join-two", [_client("c1", [_sess("drain", 1, 1, ("close", "join"))]),
+                                                      _client("c2", [_sess("drain", 1, 1, ("close", "claim"))])]))
     # the coordinator cannot be found (from the start / after a NOT_COORDINATOR answer to JoinGroup): Consume keeps looking it
     # up; Close during that retry loop has to end it
     out.append(_scen("sd-nocoord-close", [_client("c1", [_sess("drain", 1, 1, ("nocoord_close", "join"))])]))
